@@ -9,6 +9,7 @@ import QV.Proofs.FinishTsig
 import QV.Proofs.ScanTsigCont
 import QV.Proofs.ServerResp
 import QV.Proofs.ServerTsig
+import QV.Proofs.FrameServer
 
 namespace QV.ServerScan
 open QV QV.Wire QV.Reader QV.Writer
@@ -368,5 +369,299 @@ theorem signed_noData_response (cfg : Server.Cfg) (tr : Server.Transport) (now b
       exact ⟨oe, sT, q1, q2, q4, q5⟩
     · rw [hfin] at hM; cases hM
     · rw [hfin] at hM; cases hM
+
+/-! ### requests that the TSIG step does not authenticate -/
+
+/-- RCODE, TSIG mode and prepared TSIG RR of the reply to a request that is not authenticated, in the
+    code's precedence: unknown algorithm / unknown key / key of another algorithm ⇒ NOTAUTH + BADKEY,
+    unsigned; MAC size not allowed ⇒ FORMERR (+ BADSIG), unsigned; wrong MAC ⇒ NOTAUTH + BADSIG,
+    unsigned; time outside the fudge window ⇒ NOTAUTH + BADTIME, *signed*; `none`: authenticated -/
+def tsigStopReply (hm : Tsig.Algorithm → Tsig.Octets → Tsig.Octets → Tsig.Octets) (keys : List Server.Key)
+    (nowT : Tsig.TimeSigned) (r : Tsig.ReadTsigRr) (msg : List UInt8) (kn an : WName) :
+    Option (Nat × TsigMode × TsigRr) :=
+  match Tsig.Algorithm.fromName r.algorithm with
+  | none => some (9, .unsigned an, ServerTsig.prepOf kn r nowT 17)
+  | some alg =>
+    match Server.findKey keys r.keyName alg with
+    | none => some (9, .unsigned an, ServerTsig.prepOf kn r nowT 17)
+    | some key =>
+      match Tsig.verifyRequest hm r msg alg key.secret nowT with
+      | .err .FormErr => some (1, .unsigned (algName (Server.toWriterAlg alg)), ServerTsig.prepOf kn r nowT 16)
+      | .err .BadSig => some (9, .unsigned (algName (Server.toWriterAlg alg)), ServerTsig.prepOf kn r nowT 16)
+      | .err .BadTime => some (9, .response (Server.toWriterAlg alg) r.mac key.secret, ServerTsig.prepOf kn r nowT 18)
+      | _ => none
+
+open QV.ServerTsig in
+theorem tsigBadKey_fits (s : State) (h3 : 3 < s.octets.size) (r : Tsig.ReadTsigRr) (nowT : Tsig.TimeSigned)
+    (kn an : WName) (hkn : WName.parse r.keyName = some (kn, [])) (han : WName.parse r.algorithm = some (an, []))
+    (hf : TsigFits s (.unsigned an) (prepOf kn r nowT 17)) :
+    Server.tsigBadKey r nowT s = (.ok none, withTsig (stRcode 9 s) (.unsigned an) (prepOf kn r nowT 17)) := by
+  unfold Server.tsigBadKey
+  rw [rc_notauth, xrc_badkey, bind_ok (setRcode_eq 9 s h3)]
+  simp only [han, preparedFromRead_eq kn r nowT _ hkn]
+  rw [bind_ok (setTsigOrTruncate_fits _ _ _ ((stRcode_fits 9 s _ _).mpr hf))]
+  rfl
+
+open QV.ServerTsig in
+/-- the writer after the TSIG step on a request that is not authenticated, when the reply's TSIG fits -/
+theorem tsigProcess_stop_state (hm : Tsig.Algorithm → Tsig.Octets → Tsig.Octets → Tsig.Octets) (keys : List Server.Key)
+    (s : State) (h3 : 3 < s.octets.size) (r : Tsig.ReadTsigRr) (msg : List UInt8) (nowT : Tsig.TimeSigned)
+    (r' : Reader) (kn an : WName) (hkn : WName.parse r.keyName = some (kn, []))
+    (han : WName.parse r.algorithm = some (an, [])) (rc : Nat) (mode : TsigMode) (rr : TsigRr)
+    (hrep : tsigStopReply hm keys nowT r msg kn an = some (rc, mode, rr)) (hf : TsigFits s mode rr) :
+    Server.tsigProcess hm keys nowT r msg r' s = (.ok none, withTsig (stRcode rc s) mode rr) := by
+  unfold tsigStopReply at hrep
+  unfold Server.tsigProcess
+  cases ha : Tsig.Algorithm.fromName r.algorithm with
+  | none =>
+    rw [ha] at hrep
+    simp only [Option.some.injEq, Prod.mk.injEq] at hrep
+    obtain ⟨rfl, rfl, rfl⟩ := hrep
+    exact tsigBadKey_fits s h3 r nowT kn an hkn han hf
+  | some alg =>
+    rw [ha] at hrep
+    simp only at hrep ⊢
+    cases hk : Server.findKey keys r.keyName alg with
+    | none =>
+      rw [hk] at hrep
+      simp only [Option.some.injEq, Prod.mk.injEq] at hrep
+      obtain ⟨rfl, rfl, rfl⟩ := hrep
+      exact tsigBadKey_fits s h3 r nowT kn an hkn han hf
+    | some key =>
+      rw [hk] at hrep
+      simp only at hrep ⊢
+      unfold Server.tsigVerifyAndWrite
+      rcases hv : Tsig.verifyRequest hm r msg alg key.secret nowT with u | e | _
+      · rw [hv] at hrep; cases hrep
+      · rw [hv] at hrep
+        cases e with
+        | BadSig =>
+          simp only [Option.some.injEq, Prod.mk.injEq] at hrep
+          obtain ⟨rfl, rfl, rfl⟩ := hrep
+          simp only [Server.tsigReply, preparedFromRead_eq kn r nowT _ hkn, rc_noerror, rc_notauth, xrc_badsig]
+          rw [bind_ok (setRcode_eq 9 s h3), bind_ok (setTsigOrTruncate_fits _ _ _ ((stRcode_fits 9 s _ _).mpr hf))]
+          rfl
+        | BadTime =>
+          simp only [Option.some.injEq, Prod.mk.injEq] at hrep
+          obtain ⟨rfl, rfl, rfl⟩ := hrep
+          simp only [Server.tsigReply, preparedFromRead_eq kn r nowT _ hkn, rc_noerror, rc_notauth, xrc_badtime]
+          rw [bind_ok (setRcode_eq 9 s h3), bind_ok (setTsigOrTruncate_fits _ _ _ ((stRcode_fits 9 s _ _).mpr hf))]
+          rfl
+        | FormErr =>
+          simp only [Option.some.injEq, Prod.mk.injEq] at hrep
+          obtain ⟨rfl, rfl, rfl⟩ := hrep
+          simp only [Server.tsigReply, preparedFromRead_eq kn r nowT _ hkn, rc_noerror, rc_formerr, xrc_badsig]
+          rw [bind_ok (setRcode_eq 1 s h3), bind_ok (setTsigOrTruncate_fits _ _ _ ((stRcode_fits 1 s _ _).mpr hf))]
+          rfl
+      · rw [hv] at hrep; cases hrep
+
+/-- `handle_message` on a request whose scan reaches a well-formed TSIG record, in one equation -/
+theorem handleMessage_tsig_eq (cfg : Server.Cfg) (tr : Server.Transport) (now bufLen : Nat) (req : Bytes)
+    (hbuf : minBuf tr cfg.payload ≤ bufLen) (hpay : 512 ≤ cfg.payload) (hreq : req.size ≤ Rdata.USIZE_MAX)
+    (hr : (Spec.Server.specScanWith (catKind cfg) cfg.payload req).respond = true)
+    (hv : (Spec.Server.specScanWith (catKind cfg) cfg.payload req).verdict = .tsigReached) :
+    ∃ (t : Tsig.ReadTsigRr) (mw : Bytes) (r' : Reader) (question : Option (WName × Nat × Nat)),
+      r'.octets = req ∧ r'.cursor ≤ req.size ∧
+      QRel (Spec.Server.specScanWith (catKind cfg) cfg.payload req).question question ∧
+      Server.handleMessage cfg tr now bufLen req =
+        match afterTsig cfg tr req (Spec.Server.specScanWith (catKind cfg) cfg.payload req).question question
+            ((req.getD 2 0).toNat / 8 % 16) r'.cursor
+            (Server.tsigAfter cfg now t mw r' (preTsigState cfg tr bufLen req)) with
+        | (.ok true, w1) =>
+          (match Writer.finish w1 Server.macFn with
+           | .ok (bytes, _) => .ok (some bytes)
+           | _ => .panic)
+        | (.ok false, _) => .ok none
+        | _ => .panic := by
+  obtain ⟨h12, hqr, hsce⟩ := specScanWith_respond _ _ _ hr
+  unfold preTsigState
+  rw [hsce] at hv ⊢
+  have hH := hdrSt_ok bufLen tr cfg.payload (Spec.Server.hdr req 0) (((req.getD 2 0).toNat &&& 120) >>> 3)
+    (((req.getD 2 0).toNat &&& 1) != 0) hbuf hpay
+  obtain ⟨t, mw, r', question, h1, h2, h3, h4⟩ := hwc_tsig cfg tr now req h12 _ hH hreq hv
+  refine ⟨t, mw, r', question, h1, h2, h3, ?_⟩
+  rw [handleMessage_eq cfg tr now bufLen req hbuf hpay h12 hqr, h4]
+  generalize afterTsig _ _ _ _ _ _ _ _ = X
+  rcases X with ⟨(bb | e | _), w1⟩
+  · cases bb
+    · rfl
+    · simp only
+      generalize Writer.finish w1 Server.macFn = f
+      rcases f with ⟨b, m⟩ | e | _ <;> rfl
+  · rfl
+  · rfl
+
+theorem tsigStopReply_rc {hm : Tsig.Algorithm → Tsig.Octets → Tsig.Octets → Tsig.Octets} {keys : List Server.Key}
+    {nowT : Tsig.TimeSigned} {r : Tsig.ReadTsigRr} {msg : List UInt8} {kn an : WName} {rc : Nat} {mode : TsigMode}
+    {rr : TsigRr} (h : tsigStopReply hm keys nowT r msg kn an = some (rc, mode, rr)) : rc = 9 ∨ rc = 1 := by
+  unfold tsigStopReply at h
+  repeat' split at h
+  all_goals first | (cases h; done) | (simp only [Option.some.injEq, Prod.mk.injEq] at h; omega)
+
+/-- **the response to a signed request that is not authenticated** (and whose reply TSIG fits): the
+    header with RCODE NOTAUTH (or FORMERR for a MAC of a size that is not allowed), no answer or
+    authority data, the question, the OPT iff the scan reached one, and — last — the TSIG record
+    with the error (BADKEY / BADSIG / BADTIME) in its RDATA: unsigned, with an empty MAC, for BADKEY
+    and BADSIG; signed in `Response` mode over exactly the octets before it for BADTIME. -/
+theorem tsig_error_response (cfg : Server.Cfg) (tr : Server.Transport) (now bufLen : Nat) (req : Bytes)
+    (hbuf : minBuf tr cfg.payload ≤ bufLen) (hpay : 512 ≤ cfg.payload) (hreq : req.size ≤ Rdata.USIZE_MAX)
+    (hr : (Spec.Server.specScanWith (catKind cfg) cfg.payload req).respond = true)
+    (hv : (Spec.Server.specScanWith (catKind cfg) cfg.payload req).verdict = .tsigReached) :
+    ∃ (t : Tsig.ReadTsigRr) (mw : Bytes) (r' : Reader), r'.octets = req ∧ r'.cursor ≤ req.size ∧
+      ∀ nowT kn an rc mode rr, Tsig.TimeSigned.tryFromUnix now = some nowT →
+        WName.parse t.keyName = some (kn, []) → WName.parse t.algorithm = some (an, []) →
+        tsigStopReply Tsig.realHmac cfg.keys nowT t mw.toList kn an = some (rc, mode, rr) →
+        ServerTsig.TsigFits (preTsigState cfg tr bufLen req) mode rr →
+        ∀ b, Server.handleMessage cfg tr now bufLen req = .ok (some b) →
+          ∃ oe sT, NameEnc sT .none rr.keyName oe ∧ NameShape rr.keyName oe ∧
+            (sT.octets.extract 0 sT.cursor).toList =
+              signedPrefix req cfg.payload (Spec.Server.specScanWith (catKind cfg) cfg.payload req) rc ∧
+            b.toList =
+              signedPrefix req cfg.payload (Spec.Server.specScanWith (catKind cfg) cfg.payload req) rc ++
+              tsigRecordOctets oe ⟨mode, ServerTsig.reservedLen mode rr, rr⟩
+                (finishMac Server.macFn ⟨mode, ServerTsig.reservedLen mode rr, rr⟩
+                  (signedPrefix req cfg.payload (Spec.Server.specScanWith (catKind cfg) cfg.payload req) rc)) := by
+  obtain ⟨t, mw, r', question, h1, h2, _, h4⟩ := handleMessage_tsig_eq cfg tr now bufLen req hbuf hpay hreq hr hv
+  refine ⟨t, mw, r', h1, h2, fun nowT kn an rc mode rr hnow hkn han hrep hfit b hb => ?_⟩
+  obtain ⟨_, _, hsce⟩ := specScanWith_respond _ _ _ hr
+  unfold preTsigState at hfit h4
+  rw [hsce] at hfit h4 ⊢
+  generalize hsc : specBody (catKind cfg) cfg.payload req = sc at *
+  obtain ⟨_, p2, p3⟩ := specBody_props (catKind cfg) cfg.payload req
+  rw [hsc] at p2 p3
+  obtain ⟨hbase, hcur, o0, o1, o2, h30, hs3, hQ, hqd, han', hns, har, _, hsz⟩ :=
+    s1_facts bufLen tr cfg.payload (Spec.Server.hdr req 0) (((req.getD 2 0).toNat &&& 120) >>> 3)
+      (((req.getD 2 0).toNat &&& 1) != 0) hbuf hpay req sc.question
+      (fun x hx => specBody_question (catKind cfg) cfg.payload req x (by rw [hsc]; exact hx))
+  generalize qSt (hdrSt (w0 bufLen (lim0 tr)) (Spec.Server.hdr req 0) (((req.getD 2 0).toNat &&& 120) >>> 3)
+      (((req.getD 2 0).toNat &&& 1) != 0)) sc.question = s1 at *
+  have h3s : 3 < (arSt s1 tr cfg.payload sc.edns sc.limitUdp).octets.size := by rw [arSt_size]; exact hs3
+  have hT : Server.tsigAfter cfg now t mw r' (arSt s1 tr cfg.payload sc.edns sc.limitUdp) =
+      (.ok none, ServerTsig.withTsig (stRcode rc (arSt s1 tr cfg.payload sc.edns sc.limitUdp)) mode rr) := by
+    unfold Server.tsigAfter
+    rw [hnow]
+    exact tsigProcess_stop_state Tsig.realHmac cfg.keys _ h3s t mw.toList nowT r' kn an hkn han rc mode rr hrep hfit
+  rw [hT, hb] at h4
+  simp only [afterTsig] at h4
+  have hrc : rc < 16 := by rcases tsigStopReply_rc hrep with rfl | rfl <;> omega
+  obtain ⟨hF, _⟩ := sigSt_facts s1 tr cfg.payload sc.edns sc.limitUdp rc 0 hrc (by omega) hbase h30 hs3 p2 p3 mode rr
+  rcases hfin : Writer.finish (ServerTsig.withTsig (stRcode rc (arSt s1 tr cfg.payload sc.edns sc.limitUdp)) mode rr)
+      Server.macFn with ⟨bytes, mac⟩ | e | _
+  · rw [hfin] at h4
+    simp only [Out.ok.injEq, Option.some.injEq] at h4
+    subst h4
+    obtain ⟨hmac, oe, sT, q1, q2, _, q4, q5⟩ := signed_response_list Server.macFn req cfg.payload sc rc s1 _
+      ⟨mode, ServerTsig.reservedLen mode rr, rr⟩ hcur o0 o1 o2 hQ hqd han' hns har
+      hF.oct hF.o3 hF.cur hF.tsig hF.edns hF.qd hF.an hF.ns hF.ar b mac hfin
+    rw [hmac] at q5
+    exact ⟨oe, sT, q1, q2, q4, q5⟩
+  · rw [hfin] at h4; cases h4
+  · rw [hfin] at h4; cases h4
+
+/-! ### authenticated requests that a loaded zone answers -/
+
+/-- **an authenticated request answered from a loaded zone**: whatever the zone answers, the
+    response ends with the TSIG record (mode `Response`: request MAC and the key), whose MAC is
+    `macFn` of exactly the octets before it; and when the scan reached an OPT, those octets end with
+    the one OPT record (owner root, CLASS = server payload size, version and flags 0). -/
+theorem signed_answer_response (cfg : Server.Cfg) (tr : Server.Transport) (now bufLen : Nat) (req : Bytes)
+    (hbuf : minBuf tr cfg.payload ≤ bufLen) (hpay : 512 ≤ cfg.payload) (hreq : req.size ≤ Rdata.USIZE_MAX)
+    (hr : (Spec.Server.specScanWith (catKind cfg) cfg.payload req).respond = true)
+    (hv : (Spec.Server.specScanWith (catKind cfg) cfg.payload req).verdict = .tsigReached) :
+    ∃ (t : Tsig.ReadTsigRr) (mw : Bytes) (r' : Reader), r'.octets = req ∧ r'.cursor ≤ req.size ∧
+      ∀ r'' S, Server.tsigAfter cfg now t mw r' (preTsigState cfg tr bufLen req) = (.ok (some r''), S) →
+        endVerdict (catKind cfg) req.size (Spec.Server.specScanWith (catKind cfg) cfg.payload req).question
+          r'.cursor ((req.getD 2 0).toNat / 8 % 16) = .answer →
+      ∀ b, Server.handleMessage cfg tr now bufLen req = .ok (some b) →
+        ∃ nowT alg key kn, Tsig.TimeSigned.tryFromUnix now = some nowT ∧
+          Tsig.Algorithm.fromName t.algorithm = some alg ∧ Server.findKey cfg.keys t.keyName alg = some key ∧
+          WName.parse t.keyName = some (kn, []) ∧
+          Tsig.verifyRequest Tsig.realHmac t mw.toList alg key.secret nowT = .ok () ∧
+          ∃ pre oe, NameShape kn oe ∧
+            b.toList = pre ++ tsigRecordOctets oe (respTsig alg key kn t nowT)
+              (some (Server.macFn (respTsig alg key kn t nowT) pre)) ∧
+            ((Spec.Server.specScanWith (catKind cfg) cfg.payload req).edns = true →
+              ∃ x upper, pre = x ++ optRecord ⟨cfg.payload, upper⟩) ∧
+            ((Spec.Server.specScanWith (catKind cfg) cfg.payload req).edns = false →
+              ∃ w1 : State, pre = finishPrefix w1) := by
+  obtain ⟨t, mw, r', question, h1, h2, _, h4⟩ := handleMessage_tsig_eq cfg tr now bufLen req hbuf hpay hreq hr hv
+  refine ⟨t, mw, r', h1, h2, fun r'' S hT hev b hb => ?_⟩
+  rw [hT, hb] at h4
+  simp only [afterTsig, hev, if_true] at h4
+  obtain ⟨_, _, hsce⟩ := specScanWith_respond _ _ _ hr
+  unfold preTsigState at hT
+  rw [hsce] at hT ⊢
+  generalize hsc : specBody (catKind cfg) cfg.payload req = sc at *
+  obtain ⟨_, p2, p3⟩ := specBody_props (catKind cfg) cfg.payload req
+  rw [hsc] at p2 p3
+  obtain ⟨hbase, hcur, _, _, _, h30, hs3, _, _, _, _, _, hrrs, hsz⟩ :=
+    s1_facts bufLen tr cfg.payload (Spec.Server.hdr req 0) (((req.getD 2 0).toNat &&& 120) >>> 3)
+      (((req.getD 2 0).toNat &&& 1) != 0) hbuf hpay req sc.question
+      (fun x hx => specBody_question (catKind cfg) cfg.payload req x (by rw [hsc]; exact hx))
+  generalize qSt (hdrSt (w0 bufLen (lim0 tr)) (Spec.Server.hdr req 0) (((req.getD 2 0).toNat &&& 120) >>> 3)
+      (((req.getD 2 0).toNat &&& 1) != 0)) sc.question = s1 at *
+  unfold Server.tsigAfter at hT
+  cases hnow : Tsig.TimeSigned.tryFromUnix now with
+  | none => rw [hnow] at hT; cases hT
+  | some nowT =>
+    rw [hnow] at hT
+    simp only at hT
+    have h12s : 12 ≤ (arSt s1 tr cfg.payload sc.edns sc.limitUdp).octets.size := by
+      rw [arSt_size, hsz]; cases tr <;> simp only [minBuf] at hbuf <;> omega
+    obtain ⟨alg, key, kn, ha, hk, hkn, hver, _, _, hS⟩ :=
+      tsigProcess_some_state Tsig.realHmac cfg.keys _ h12s t mw.toList nowT r' r'' S hT
+    refine ⟨nowT, alg, key, kn, rfl, ha, hk, hkn, hver, ?_⟩
+    obtain ⟨hX, _⟩ := sigSt_facts s1 tr cfg.payload sc.edns sc.limitUdp 0 0 (by omega) (by omega)
+      hbase h30 hs3 p2 p3 (.response (Server.toWriterAlg alg) t.mac key.secret) (ServerTsig.prepOf kn t nowT 0)
+    rw [← hS] at hX
+    have hSrr : S.rrStart = s1.rrStart := by
+      rw [hS]
+      show (stRcode 0 (arSt s1 tr cfg.payload sc.edns sc.limitUdp)).rrStart = _
+      have : ∀ x : State, (stRcode 0 x).rrStart = x.rrStart := by
+        intro x; unfold stRcode stHdr; cases x.edns <;> rfl
+      rw [this]
+      cases sc.edns <;> cases tr <;> rfl
+    -- the answering phase keeps the TSIG slot and the EDNS payload
+    have hfr := framed_bind (k := true) (Server.framed_handleQuery 12 (by omega) cfg question tr)
+      (fun _ => framed_pure 12 true) S (by rw [hX.cur, hcur]; omega) (by rw [hSrr, hrrs]; omega)
+    obtain ⟨k1, k2⟩ := hfr.keep rfl
+    rcases hq : (Server.handleQuery cfg question tr >>= fun _ => (pure true : M Bool)) S with ⟨(bb | e | _), w1⟩
+    · rw [hq] at h4 hfr k1 k2
+      simp only at hfr k1 k2
+      cases bb with
+      | false => simp only at h4; cases h4
+      | true =>
+        simp only at h4
+        rcases hfin : Writer.finish w1 Server.macFn with ⟨bytes, mac⟩ | e | _
+        · rw [hfin] at h4
+          simp only [Out.ok.injEq, Option.some.injEq] at h4
+          subst h4
+          have hts : w1.tsig = some (respTsig alg key kn t nowT) := by rw [k1, hX.tsig]; rfl
+          obtain ⟨_, hmac, oe, sT, hoe, _, _, _, hbl⟩ :=
+            finish_octets_tsig Server.macFn w1 hfr.cur _ hts b mac hfin
+          have hmac' : mac = some (Server.macFn (respTsig alg key kn t nowT) (finishPrefix w1 ++ optEnc w1.edns)) := by
+            rw [hmac]; rfl
+          rw [hmac'] at hbl
+          refine ⟨finishPrefix w1 ++ optEnc w1.edns, oe, nameEnc_none_shape hoe, hbl, ?_, ?_⟩
+          · intro he
+            rw [hX.edns, he] at k2
+            simp only [if_true, Option.map_some] at k2
+            rcases hw : w1.edns with _ | ed
+            · rw [hw] at k2; cases k2
+            · rw [hw] at k2
+              simp only [Option.map_some, Option.some.injEq] at k2
+              refine ⟨finishPrefix w1, ed.upper, ?_⟩
+              rw [optEnc_some]
+              congr 2
+              cases ed; simp only at k2; rw [k2]
+          · intro he
+            rw [hX.edns, he] at k2
+            simp only [Bool.false_eq_true, if_false, Option.map_none, Option.map_eq_none_iff] at k2
+            refine ⟨w1, ?_⟩
+            rw [k2]; simp [optEnc]
+        · rw [hfin] at h4; cases h4
+        · rw [hfin] at h4; cases h4
+    · rw [hq] at h4; cases h4
+    · rw [hq] at h4; cases h4
 
 end QV.ServerScan
